@@ -139,7 +139,7 @@ def strategy_(draw, tier):
         return {"a": Mol.simple([z] * n1, e1, family=which + ":a").to_json(), "b": Mol.simple([z] * n2, e2, family=which + ":b").to_json(), "kind": kind, "perm_seed": seed}
     mol = draw(gens.mols(tier, families=("er", "skeleton", "chem", "er", "wlhard", "multi")))
     mk = draw(st.sampled_from(["two_switch", "two_switch", "move_label", "swap_elements", "mass_rad", "move_edge"]))
-    return {"a": mol, "mutation": mk, "kind": kind, "perm_seed": seed}
+    return {"a": mol, "mutation": mk, "kind": kind, "perm_seed": seed, "route": draw(st.sampled_from(["graph", "graph", "v2000", "v3000"]))}
 
 
 def strategy(tier):
@@ -149,10 +149,23 @@ def strategy(tier):
 _SEEN = {}
 
 
-def string_of(mol, rnd):
+def string_of(mol, rnd, route="graph"):
     pi = list(range(mol.n))
     rnd.shuffle(pi)
-    return pipeline(mol_to_graph(mol.permute(pi)))
+    pm = mol.permute(pi)
+    in_range = all(0 <= a[1] <= 999 and 0 <= a[2] <= 3 for a in pm.atoms) and pm.n <= 999 and pm.m <= 999
+    if route == "v2000" and in_range:
+        from ..lib import call, graph_from_molfile_text
+        from ..render import render_v2000
+
+        style = {"seed": rnd.randrange(2**31), "per_line": rnd.choice([1, 3, 8]), "vary_per_line": rnd.random() < 0.5, "chg_by": "mline", "shuffle_props": True, "interleave": rnd.random() < 0.5}
+        return pipeline(call("read", graph_from_molfile_text, render_v2000(pm, None, style)))
+    if route == "v3000" and in_range:
+        from ..lib import call, graph_from_molfile_text
+        from ..render import render_v3000
+
+        return pipeline(call("read", graph_from_molfile_text, render_v3000(pm, None, {"seed": rnd.randrange(2**31), "split": "random", "prop_shuffle": True})))
+    return pipeline(mol_to_graph(pm))
 
 
 def iso_of(a, b):
@@ -182,8 +195,10 @@ def check(case, stats):
         if b is None:
             stats.label("mutation_not_applicable")
             b = a
-    sa = string_of(a, rnd)
-    sb = string_of(b, rnd)
+    route = case.get("route", "graph")
+    sa = string_of(a, rnd, route)
+    sb = string_of(b, rnd, route)
+    stats.label("route:" + route)
     stats.evaluated(2)
     stats.label("kind:" + case["kind"] + (":" + case.get("mutation", "") if "mutation" in case else ""))
     same = iso_of(a, b) if (sa == sb or a.n <= 40) else False
